@@ -203,6 +203,15 @@ def verif_gate(x, p=None, q=None):
     return use(q, use(p, x) * 1.5)
 
 
+def verif_gate_dflt(x, p=3, q=None):
+    # a parameter whose DEFAULT is not None: an explicit `p=None` must reach the body as None
+    return use(q, use(p, x) * 1.5)
+
+
+def _verif_gate_dflt_site(*args, **kwargs):
+    return globals()["verif_gate_dflt"](*args, **kwargs)
+
+
 def _verif_gate_site(*args, **kwargs):
     # the FunctionPlugin patches the MODULE ATTRIBUTE of a plain function: look it up at call time
     return globals()["verif_gate"](*args, **kwargs)
@@ -214,13 +223,14 @@ def make_targets():
     from flax import nnx
 
     onnx_function(verif_gate)
+    onnx_function(verif_gate_dflt)
 
     @onnx_function
     class VerifGateModule(nnx.Module):
         def __call__(self, x, p=None, q=None):
             return use(q, use(p, x) * 1.5)
 
-    return {"function": _verif_gate_site, "module": VerifGateModule()}
+    return {"function": _verif_gate_site, "module": VerifGateModule(), "function_dflt": _verif_gate_dflt_site}
 
 
 def programs(g: Callable, vc: dict) -> dict[str, list[Callable]]:
@@ -239,7 +249,9 @@ def programs(g: Callable, vc: dict) -> dict[str, list[Callable]]:
 
 
 # kw2/pos2 subsume kw1/pos1 unless two errors cancel; the quick tier keeps the two-call-site forms
-QUICK_FORMS = {"function": ["kw2", "pos2", "kwswap"], "module": ["kw2", "pos2"]}
+QUICK_FORMS = {"function": ["kw2", "pos2", "kwswap"], "module": ["kw2", "pos2"], "function_dflt": ["kw2", "kw1"]}
+# the target whose parameter default is not None only matters for value classes that contain None
+NONE_CLASSES = {"none_vs_value", "callable_vs_none"}
 ALL_FORMS = ["kw2", "pos2", "kwswap", "kw1", "pos1", "mixed"]
 
 
@@ -262,7 +274,11 @@ def run_matrix(chk, seed: int, thorough: bool, only: Optional[tuple[str, str, st
         classes = value_classes(rng, thorough)
         for tname, g in targets.items():
             forms = ALL_FORMS if thorough else QUICK_FORMS[tname]
+            if tname.endswith("_dflt"):
+                forms = [f for f in forms if f.startswith("kw")]
             for vc in classes:
+                if tname.endswith("_dflt") and vc["class"] not in NONE_CLASSES:
+                    continue
                 for form in forms:
                     if only is not None and only != (tname, vc["class"], form):
                         continue
